@@ -111,6 +111,14 @@ fn gen(rng: &mut Rng) -> Program {
     let nd = rng.range(0, 3) as usize;
     let during = gen_ops(rng, nd, ndbs, &mut created, false);
     let during_at_sync = rng.chance(1, 2);
+    let (mut before, mut during) = (before, during);
+    if during_at_sync && rng.chance(1, 2) {
+        // a write that races the catch-up computation of a key the catch-up certainly carries: the key
+        // exists (single-word value) before the node leaves and is removed or overwritten at the very
+        // instant of the synchronisation
+        before.push(Op::Set { db: 0, key: "kc".into(), val: "one".into() });
+        during = vec![if rng.chance(1, 2) { Op::Remove { db: 0, key: "kc".into() } } else { Op::Set { db: 0, key: "kc".into(), val: "x".into() } }];
+    }
     let bulk = if rng.chance(1, 12) { rng.range(90, 260) as u32 } else { 0 };
     Program { strategies, before, departure, away, during, during_at_sync, bulk }
 }
@@ -189,6 +197,12 @@ fn execute(prog: Program) -> Outcome {
         out.setup = Err("setup_unstable".into());
         return out;
     }
+    // what the departing node holds (a full synchronisation later lands on top of whatever of this
+    // reached its disk)
+    let joiner_had: std::collections::BTreeSet<(String, String)> = match (prog.departure.clone(), w.dbs(1)) {
+        (Departure::NeverUp, _) | (_, None) => Default::default(),
+        (_, Some(d1)) => dump_node(&d1).iter().flat_map(|(db, (_, keys))| keys.iter().filter(|(_, e)| !e.deleted).map(move |(k, _)| (db.clone(), k.clone()))).collect(),
+    };
     match prog.departure {
         Departure::NeverUp => {}
         Departure::Kill => w.kill(1),
@@ -338,7 +352,7 @@ fn execute(prog: Program) -> Outcome {
                 )),
                 (None, Some(b)) => out.violations.push(Violation::new(
                     "removed-key-alive",
-                    format!("{}:{}:{}", mode, val_shape(&b.value), phase),
+                    format!("{}:{}:{}:{}", mode, val_shape(&b.value), phase, if joiner_had.contains(&(db.clone(), k.clone())) { "joiner-had-it" } else { "joiner-new" }),
                     format!("{}: {}/{} is removed on the primary, the joined node holds {:?} v{}", mode, db, k, b.value, b.version),
                 )),
                 (Some(a), Some(b)) => {
@@ -362,7 +376,7 @@ fn execute(prog: Program) -> Outcome {
     if !bulk_missing.is_empty() {
         out.violations.push(Violation::new(
             "catch-up-truncated",
-            mode.to_string(),
+            format!("{}:{}", mode, if bulk_missing.len() as u32 == prog.bulk { "all" } else { "partial" }),
             format!("{}: {} of the {} keys written while the node was away are absent on the joined node (first: {})", mode, bulk_missing.len(), prog.bulk, bulk_missing[0]),
         ));
     }
